@@ -12,3 +12,6 @@
 #define E12 (!(X->ncol >= 0 && ((DNformat*)X->Store)->lda >= MAX0(A->nrow) && B->ncol==X->ncol && X->Stype==SLU_DN && X->Dtype==DT && X->Mtype==SLU_GE))
 #define BM(i,j) Bmat[(i) + (j)*ldb]
 #define XM(i,j) Xmat[(i) + (j)*ldx]
+#define CELL_AT(c,n_,ld,nr) (((nr) >= 1 && 0 <= (c) && (c) < (n_)) || ((nr) >= 2 && (ld) <= (c) && (c) < (ld) + (n_)))
+#define LCELL_B(c) CELL_AT(c, A->nrow, ldb, nrhs)
+#define LCELL_X(c) CELL_AT(c, A->nrow, ldx, nrhs)
